@@ -1371,19 +1371,27 @@ func (e *Entry) Find(name string) *Entry {
 			switch part {
 			case "input":
 				if e.RPC.Input == nil {
+					// The rpc has no input statement: input is
+					// implicit, hang it off the rpc.
 					e.RPC.Input = &Entry{
-						Name: "input",
-						Kind: InputEntry,
-						Dir:  make(map[string]*Entry),
+						Parent: e,
+						Node:   &Input{Name: "input", Source: e.Node.Statement(), Parent: e.Node},
+						Name:   "input",
+						Kind:   InputEntry,
+						Dir:    make(map[string]*Entry),
+						Extra:  map[string][]interface{}{},
 					}
 				}
 				e = e.RPC.Input
 			case "output":
 				if e.RPC.Output == nil {
 					e.RPC.Output = &Entry{
-						Name: "output",
-						Kind: OutputEntry,
-						Dir:  make(map[string]*Entry),
+						Parent: e,
+						Node:   &Output{Name: "output", Source: e.Node.Statement(), Parent: e.Node},
+						Name:   "output",
+						Kind:   OutputEntry,
+						Dir:    make(map[string]*Entry),
+						Extra:  map[string][]interface{}{},
 					}
 				}
 				e = e.RPC.Output
